@@ -43,7 +43,7 @@ PRESENTATIONS = {
 PRES_ORDER = ['names', 'ints', 'numstr', 'posints']
 ENTRY = {'0': 0, '1': 1, '2': 2, '-1': -1, 'nan': float('nan'), 'str1': '1'}
 WHYS = {'no geo', 'dup column', 'missing column', 'dup id', 'values', 'zero row'}
-DEFECT_KINDS = {'none', 'geo_index', 'extra_col', 'missing', 'dupcol', 'dupid', 'badentry'}
+DEFECT_KINDS = {'none', 'geo_index', 'extra_col', 'missing', 'dupcol', 'dupid', 'badentry', 'col_order'}
 
 
 def effective_pres(table, pres):
